@@ -75,6 +75,41 @@ theorem once_markupJoin {x y : Val} {sx sy : List Char} (hx : Once x sx) (hy : O
     show x.text ++ y.text = sx ++ sy
     rw [hx.text hm.1, hy.text hm.2]
 
+/-- `join` keeps the relation whichever of delimiter and items are Markup: all plain → a plain join; otherwise a Markup
+    join in which every plain piece is escaped and every Markup piece (the delimiter included) is kept -/
+theorem once_doJoin {x y d : Val} {sx sy sd : List Char} (hx : Once x sx) (hy : Once y sy) (hd : Once d sd) :
+    Once (doJoin true [x, y] d) (sx ++ sd ++ sy) := by
+  obtain ⟨ax, ux⟩ := hx.esc
+  obtain ⟨ay, uy⟩ := hy.esc
+  obtain ⟨ad, ud⟩ := hd.esc
+  have hm : Once (Val.markup (x.esc ++ d.esc ++ y.esc)) (sx ++ sd ++ sy) :=
+    ⟨(ax.append ad).append ay, by
+      rw [unescape_append_of_ampok (ax.append ad), unescape_append_of_ampok ax, ux, ud, uy]⟩
+  have h2 : ∀ (s p q : List Char), s.intercalate [p, q] = p ++ s ++ q := by
+    intro s p q; simp [List.intercalate, List.intersperse]
+  cases d with
+  | markup dm =>
+    have e : doJoin true [x, y] (.markup dm) = .markup (x.esc ++ dm ++ y.esc) := by
+      have hdm : (Val.markup dm).isMarkup = true := rfl
+      simp only [doJoin, Bool.not_true, Bool.false_eq_true, ↓reduceIte, hdm, vJoin, List.map_cons, List.map_nil, h2]
+    rw [e]; exact hm
+  | plain dp =>
+    have hdp : (Val.plain dp).isMarkup = false := rfl
+    by_cases hany : (x.isMarkup || y.isMarkup) = true
+    · have e : doJoin true [x, y] (.plain dp) = .markup (x.esc ++ (Val.plain dp).esc ++ y.esc) := by
+        simp only [doJoin, Bool.not_true, Bool.false_eq_true, ↓reduceIte, hdp, Bool.not_false, List.any_cons, List.any_nil,
+          Bool.or_false, hany, vJoin, List.map_cons, List.map_nil, h2]
+      rw [e]; exact hm
+    · have e : doJoin true [x, y] (.plain dp) = .plain (x.text ++ dp ++ y.text) := by
+        simp only [doJoin, Bool.not_true, Bool.false_eq_true, ↓reduceIte, hdp, Bool.not_false, List.any_cons, List.any_nil,
+          Bool.or_false, hany, vJoin, List.map_cons, List.map_nil, h2]
+      rw [e]
+      simp only [Bool.or_eq_true, not_or, Bool.not_eq_true] at hany
+      show x.text ++ dp ++ y.text = sx ++ sd ++ sy
+      rw [hx.text hany.1, hy.text hany.2]
+      have : dp = sd := hd
+      rw [this]
+
 theorem once_lookup {envOn : List Val} {envOff : List (List Char)} (h : EnvOnce envOn envOff) (i : Nat) :
     Once (lookup envOn i) (envOff.getD i []) := by
   induction h generalizing i with
@@ -150,7 +185,16 @@ theorem once_aux (wrap : List Char → List (List Char)) (t : Tm) (hn : t.neutra
   | force e _ => simp [Tm.neutral] at hn
   | add a b _ _ => simp [Tm.neutral] at hn
   | mod f a _ _ => simp [Tm.neutral] at hn
-  | join d a b _ _ _ => simp [Tm.neutral] at hn
+  | join d a b ihd iha ihb =>
+    intro envOn envOff he
+    simp only [Tm.neutral, Bool.and_eq_true] at hn
+    simp only [Tm.texts, List.mem_append] at ht
+    have hd := (ihd hn.1.1 (fun x hx => ht x (Or.inl (Or.inl hx))) envOn envOff he).1
+    have ha := (iha hn.1.2 (fun x hx => ht x (Or.inl (Or.inr hx))) envOn envOff he).1
+    have hb := (ihb hn.2 (fun x hx => ht x (Or.inr hx)) envOn envOff he).1
+    have h := once_doJoin ha hb hd
+    simp only [valOn, valOff, outOn, outOff]
+    exact ⟨h, h.esc⟩
   | replace s o n _ _ _ => simp [Tm.neutral] at hn
   | indent s w _ _ => simp [Tm.neutral] at hn
   | truncate s e n _ _ => simp [Tm.neutral] at hn
